@@ -8,7 +8,7 @@ from props.c18 import H, decode_cfg
 
 CATS = ["IMM", "CTOR", "TONL", "PKGO", "IMPL"]
 CODES = ["IMM01", "IMM02", "IMM03", "IMM04", "CTOR01", "CTOR02", "CTOR03", "TONL01", "TONL02", "TONL03", "PKGO01", "PKGO02", "PKGO03", "IMPL01", "IMPL02", "IMPL03"]
-JUNK = ["IM", "IMM0", "X9", "IMM011", "CTOR0", "PKG", "A", "ALLL", "TONL1"]
+JUNK = ["IM", "IMM0", "X9", "IMM011", "CTOR0", "PKG", "A", "ALLL", "TONL1", "no imm", "not all", "IMM 01", "CTOR-01"]
 
 
 def tokens_for(code):
@@ -21,7 +21,7 @@ def spell(rng, toks):
     for t in toks:
         r = rng.random()
         t = t.lower() if r < 0.3 else (t.capitalize() if r < 0.4 else t)
-        out.append(rng.choice(["", " ", "  "]) + t + rng.choice(["", " "]))
+        out.append(rng.choice(["", " ", "  ", "\t", " \t", "\n"]) + t + rng.choice(["", " ", "\t", "\r", " \r\n"]))
     s = ",".join(out)
     if rng.random() < 0.2:
         s += ","
